@@ -193,6 +193,10 @@ def plan_C04(prop, tier, seed, t0):
         fams += ["--fam", "k=3,tys=ZX,phs=0124,ets=NH,nb=1", "--fam", "k=4,tys=Z,phs=014,ets=H,nb=1"]
     traces = [
         dict(name="fam", engine="rules", args=fams + ["--stride", 4 if q else 1], module="Trace_Rules.tla", cfg="Trace_Rules.cfg"),
+        # Z spiders only, BOTH edge types (seed C04_e: a rule whose matcher looks at the legs of ITS vertex only, applied where two neighbours are
+        # joined by a plain edge - diagrams that are neither graph-like nor ever produced by the library's own simplifiers, but well-formed)
+        dict(name="fam_zn", engine="rules", args=["--fam", "k=3,tys=Z,phs=024,ets=NH,nb=1", "--stride", 4 if q else 1],
+             module="Trace_Rules.tla", cfg="Trace_Rules.cfg"),
         dict(name="rand", engine="rules", args=["--random", 300 if q else 4000, "--rand", "maxsp=5,maxb=3"],
              module="Trace_Rules.tla", cfg="Trace_Rules.cfg"),
         dict(name="randgl", engine="rules", args=["--random", 300 if q else 4000, "--rand", "kind=gl,maxsp=6,maxb=3,phs=01246"],
